@@ -50,16 +50,16 @@ var fileContents = map[string]string{
 const stdinContent = "stdin-bytes-for-the-guest:0123456789"
 
 type scenario struct {
-	ID         int       `json:"id"`
-	Engine     string    `json:"engine"`
-	RT         string    `json:"runtimes"` // 1rt | 2rt-cache | 2rt-filecache
-	Cfg        string    `json:"config"`   // shared | derived | rw
-	Concurrent bool      `json:"concurrent"`
-	Late       bool      `json:"late_instantiation"`
-	N          int       `json:"n"`
-	ModOf      []int     `json:"module_of"` // instance -> module number
-	Ops        [][]op    `json:"ops"`
-	Sched      []int     `json:"schedule"`
+	ID         int        `json:"id"`
+	Engine     string     `json:"engine"`
+	RT         string     `json:"runtimes"` // 1rt | 2rt-cache | 2rt-filecache
+	Cfg        string     `json:"config"`   // shared | derived | rw
+	Concurrent bool       `json:"concurrent"`
+	Late       bool       `json:"late_instantiation"`
+	N          int        `json:"n"`
+	ModOf      []int      `json:"module_of"` // instance -> module number
+	Ops        [][]op     `json:"ops"`
+	Sched      []int      `json:"schedule"`
 	Specs      []*modSpec `json:"modules"`
 }
 
@@ -696,6 +696,7 @@ func main() {
 		}
 	} else {
 		r := hx.Rand()
+		impConstStage(r)
 		per, nops := 200, 40
 		if hx.Thorough() {
 			per, nops = 2500, 70
